@@ -64,7 +64,7 @@ def _(self: HDR()) -> bytes:
 
 
 @contract("spsdk.sbfile.sb2.commands:CmdHeader.parse")
-def _(cls: Const(CmdHeader), data: Bytes(lo=0, hi=64)) -> Obj(CmdHeader, tag=U8, flags=U16, address=U32, count=U32, data=U32):
+def _(cls: Const(CmdHeader), data: Bytes(lo=0, hi=1 << 24)) -> Obj(CmdHeader, tag=U8, flags=U16, address=U32, count=U32, data=U32):
     raises(SPSDKError, len(data) < 16 or data[0] != rom_checksum(data), label="short-or-bad-checksum")
     ensures((result.tag, result.flags, result.address, result.count, result.data) == rom_header_fields(data)[1:], label="fields-as-the-rom-reads-them")
     pure()
@@ -263,3 +263,107 @@ def _(address: U32, size: U32, mem_id: OneOf(0, 1, 9, 0x110, 0x120, 0x900)):
             label="rom-sees-configuration-block-and-memory")
     let(back=CmdMemEnable.parse(raw))
     ensures(back.address == address and back.size == size and back.mem_id == mem_id, label="parse-inverts-export")
+
+
+# ---- CALL / PROG / FW_VERSION_CHECK / key-store backup+restore / NOP / RESET: what was given reaches the ROM and parses back --------------------
+from spsdk.mboot.memories import ExtMemId  # noqa: E402
+from spsdk.sbfile.sb2.commands import (CmdKeyStoreBackup, CmdKeyStoreRestore, CmdProg, CmdReset, CmdVersionCheck,  # noqa: E402
+                                       VersionCheckType)
+
+inline("spsdk.sbfile.sb2.commands:CmdCall.parse", "spsdk.sbfile.sb2.commands:CmdProg.__init__", "spsdk.sbfile.sb2.commands:CmdProg.address",
+       "spsdk.sbfile.sb2.commands:CmdProg.flags", "spsdk.sbfile.sb2.commands:CmdProg.data_word1", "spsdk.sbfile.sb2.commands:CmdProg.data_word2",
+       "spsdk.sbfile.sb2.commands:CmdProg.parse", "spsdk.sbfile.sb2.commands:CmdVersionCheck.__init__", "spsdk.sbfile.sb2.commands:CmdVersionCheck.type",
+       "spsdk.sbfile.sb2.commands:CmdVersionCheck.version", "spsdk.sbfile.sb2.commands:CmdVersionCheck.parse",
+       "spsdk.sbfile.sb2.commands:CmdKeyStoreBackupRestore.__init__", "spsdk.sbfile.sb2.commands:CmdKeyStoreBackupRestore.address",
+       "spsdk.sbfile.sb2.commands:CmdKeyStoreBackupRestore.controller_id", "spsdk.sbfile.sb2.commands:CmdKeyStoreBackupRestore.parse",
+       "spsdk.sbfile.sb2.commands:CmdKeyStoreBackup.cmd_id", "spsdk.sbfile.sb2.commands:CmdKeyStoreRestore.cmd_id",
+       "spsdk.sbfile.sb2.commands:CmdNop.__init__", "spsdk.sbfile.sb2.commands:CmdNop.parse", "spsdk.sbfile.sb2.commands:CmdReset.__init__",
+       "spsdk.sbfile.sb2.commands:CmdReset.parse", "spsdk.utils.spsdk_enum:SpsdkEnum.from_tag")
+
+
+@lemma("call-command-reaches-the-rom-and-parses-back")
+def _(address: U32, argument: U32):
+    let(raw=CmdCall(address, argument).export())
+    ensures(rom_header_fields(raw)[1:] == (EnumCmdTag.CALL.tag, 0, address, 0, argument) and raw[0] == rom_checksum(raw) and len(raw) == 16,
+            label="rom-sees-address-and-argument")
+    let(back=CmdCall.parse(raw))
+    ensures(back.address == address and back.argument == argument, label="parse-inverts-export")
+
+
+@lemma("program-command-reaches-the-rom-and-parses-back")
+def _(address: U32, mem_id: U8, word1: U32, word2: U32):
+    # flags: bit 0 = an eight-byte programming (second word given), bits 15..8 = the memory
+    let(raw=CmdProg(address, mem_id, word1, word2).export())
+    ensures(rom_header_fields(raw)[1:] == (EnumCmdTag.PROG.tag, mem_id * 256 + (1 if word2 != 0 else 0), address, word1, word2)
+            and raw[0] == rom_checksum(raw) and len(raw) == 16, label="rom-sees-index-memory-and-both-words")
+    let(back=CmdProg.parse(raw))
+    ensures(back.address == address and back.mem_id == mem_id and back.data_word1 == word1 and back.data_word2 == word2
+            and back.is_eight_byte == (1 if word2 != 0 else 0), label="parse-inverts-export")
+    ensures(back.export() == raw, label="re-export-reproduces-every-byte")
+
+
+@lemma("version-check-command-reaches-the-rom-and-parses-back")
+def _(ver_type: OneOf(VersionCheckType.SECURE_VERSION, VersionCheckType.NON_SECURE_VERSION), version: U32):
+    let(raw=CmdVersionCheck(ver_type, version).export())
+    ensures(rom_header_fields(raw)[1:] == (EnumCmdTag.FW_VERSION_CHECK.tag, 0, ver_type.tag, version, 0) and raw[0] == rom_checksum(raw) and len(raw) == 16,
+            label="rom-sees-which-counter-and-the-minimal-version")
+    let(back=CmdVersionCheck.parse(raw))
+    ensures(back.type == ver_type and back.version == version, label="parse-inverts-export")
+
+
+@lemma("key-store-backup-and-restore-commands-reach-the-rom-and-parse-back")
+def _(address: U32, mem: OneOf(*[m for m in ExtMemId if 0 <= m.tag <= 0xFF])):
+    let(b=CmdKeyStoreBackup(address, mem).export(), r=CmdKeyStoreRestore(address, mem).export())
+    ensures(rom_header_fields(b)[1:] == (EnumCmdTag.WR_KEYSTORE_FROM_NV.tag, mem.tag * 256, address, 4, 0) and b[0] == rom_checksum(b), label="backup-names-address-and-memory")
+    ensures(rom_header_fields(r)[1:] == (EnumCmdTag.WR_KEYSTORE_TO_NV.tag, mem.tag * 256, address, 4, 0) and r[0] == rom_checksum(r), label="restore-names-address-and-memory")
+    let(bb=CmdKeyStoreBackup.parse(b), rr=CmdKeyStoreRestore.parse(r))
+    ensures(bb.address == address and bb.controller_id == mem.tag and rr.address == address and rr.controller_id == mem.tag, label="parse-inverts-export")
+
+
+@lemma("nop-and-reset-are-bare-headers-with-their-own-tags")
+def _():
+    let(n=CmdNop().export(), r=CmdReset().export())
+    ensures(rom_header_fields(n)[1:] == (EnumCmdTag.NOP.tag, 0, 0, 0, 0) and n[0] == rom_checksum(n) and len(n) == 16, label="nop")
+    ensures(rom_header_fields(r)[1:] == (EnumCmdTag.RESET.tag, 0, 0, 0, 0) and r[0] == rom_checksum(r) and len(r) == 16, label="reset")
+    ensures(CmdNop.parse(n).export() == n and CmdReset.parse(r).export() == r, label="parse-inverts-export")
+
+
+# ---- FILL: the pattern word the ROM replicates over the range ---------------------------------------------------------------------------------
+inline("spsdk.sbfile.sb2.commands:CmdFill.__init__", "spsdk.sbfile.sb2.commands:CmdFill.address", "spsdk.sbfile.sb2.commands:CmdFill.export",
+       "spsdk.sbfile.sb2.commands:CmdFill.parse", "spsdk.sbfile.sb2.commands:CmdFill.pattern")
+
+
+def fill_word(p):
+    """A one-byte pattern is repeated four times, a two-byte pattern twice, a three- or four-byte pattern is the word itself."""
+    return p * 0x01010101 if p < 0x100 else (p * 0x10001 if p < 0x10000 else p)
+
+
+@lemma("fill-command-reaches-the-rom-with-the-replicated-pattern-word-and-parses-back")
+def _(address: U32, pattern: U32, length: Range(1, 1 << 30)):
+    requires(length % 4 == 0)
+    let(raw=CmdFill(address, pattern, length, zero_filling=True).export())
+    ensures(rom_header_fields(raw)[1:] == (EnumCmdTag.FILL.tag, 0, address, length, fill_word(pattern)) and raw[0] == rom_checksum(raw) and len(raw) == 16,
+            label="rom-sees-range-and-pattern-word")
+    let(back=CmdFill.parse(raw))
+    ensures(back.address == address and back.pattern == fill_word(pattern).to_bytes(4, "big") and back.header.count == length, label="parse-inverts-export")
+
+
+# ---- LOAD, the way back: what parse hands out is what the ROM would load ------------------------------------------------------------------------
+@assumed("spsdk.sbfile.misc:SecBootBlckSize.align_block_fill_random", reason="filler bytes come from the OS generator (A-rng): only length and prefix are stated")
+def _(data: bytes) -> bytes:
+    ensures(len(result) == (len(data) + 15) // 16 * 16 and result[: len(data)] == data)
+
+
+inline("spsdk.sbfile.sb2.commands:CmdLoad.__init__", "spsdk.sbfile.sb2.commands:CmdLoad.address", "spsdk.sbfile.sb2.commands:CmdLoad.flags")
+
+
+@contract("spsdk.sbfile.sb2.commands:CmdLoad.parse")
+def _(cls: Const(CmdLoad), data: Bytes(lo=16, hi=1 << 20)) -> Opaque():
+    let(f=rom_header_fields(data), n=(rom_header_fields(data)[4] + 15) // 16 * 16)
+    let(payload=data[16: 16 + n])
+    raises(SPSDKError, data[0] != rom_checksum(data) or f[1] != EnumCmdTag.LOAD.tag or f[5] != crc_mpeg2(payload), label="bad-checksum-tag-or-data-crc")
+    ensures(implies(len(payload) % 16 == 0, result.data == payload), label="data-are-the-bytes-behind-the-header")
+    ensures(result._header.address == f[3] and result._header.flags == f[2], label="address-and-memory-flags-kept")
+    ensures(implies(len(payload) % 16 == 0, result._header.count == len(payload) and result._header.data == f[5]), label="count-and-crc-describe-the-data")
+    sample_with(lambda rnd: {"cls": CmdLoad, "data": (lambda raw: raw if rnd.random() < 0.7 else raw[:-1] + bytes([raw[-1] ^ 1]))(
+        CmdLoad(rnd.getrandbits(32), bytes(rnd.getrandbits(8) for _ in range(rnd.choice([0, 1, 15, 16, 17, 100]))), rnd.choice([0, 1, 9, 0x110]), zero_filling=True).export())})
